@@ -1,5 +1,7 @@
 """C06 - slashing recognised exactly, pro rata: structural clauses (DESIGN 6, C06)."""
-from ..callgraph import explore, storage_effects, call_sites
+from ..callgraph import explore, storage_effects, call_sites, site_guarded, always_passes
+from ..iters import droppers, true_facts, mk_item, last
+from .msgs import collection_repr
 from ..expr import show, find, arith_args
 from .common import entry, variant_env, stored, where, arm_handler
 from .hub_common import resync_fns, recompute_fns, Roles, STATE, PARAMS, BATCH
@@ -24,98 +26,140 @@ def run(prog, world, sem, rep):
     body = prog.body(list(rc)[0])
     be = world.be(body)
     roles = Roles(prog, sem)
-    # the local holding the State being rebuilt: the one with field-level definitions of the pool totals
-    defs = [d for l, ds in be.defs_by_local.items() for d in ds if d.path and d.path[0][0] == "f" and d.path[0][1] in ("total_bond_bsei_amount", "total_bond_stsei_amount")]
-    by_field = {}
-    for d in defs:
-        by_field.setdefault(d.path[0][1], []).append(d)
-    if set(by_field) != {"total_bond_bsei_amount", "total_bond_stsei_amount"}:
-        rep.ob("C06.a", "pool assignments", False, "anchor-lost: pool assignments found for %s" % sorted(by_field), where(body))
-        return
+    rvs = explore(sem, body)          # the recompute function and everything it calls (methods it delegates to, closures)
+    root = rvs[0]
+    POOLS = ("total_bond_bsei_amount", "total_bond_stsei_amount")
 
     def lab(x):
         return sem.label(x)
 
     def is_booked_sum(x):
-        x = world.ident(x, expand_ws=False)
+        # booked = old bSei pool + old stSei pool (possibly through a pure helper such as State::total_bonded)
+        x = world.ident(x)
         if x.op == "bin" and x.info == "Add":
             return {lab(a) for a in x.args} == {stored(STATE, "total_bond_bsei_amount"), stored(STATE, "total_bond_stsei_amount")}
         return False
-    # the delegated sum: accumulation over query_all_delegations(self)
-    pass_edges = set()
+
+    # the comparison delegated < booked, wherever it is made
     delegated = None
-    for blk in body.blocks:
-        if blk.term.kind == "switch" and blk.idx in be.cfg.live:
-            for succ, fl in sem.edge_facts(be, blk.idx).items():
-                for f in fl:
-                    if f[0] == "cmp" and f[1] == "Lt" and is_booked_sum(f[3]):
-                        pass_edges.add((blk.idx, succ))
-                        delegated = world.ident(f[2], expand_ws=False)
-    reach = be.cfg.reach([0], removed=pass_edges)
-    for fld, ds in sorted(by_field.items()):
-        bad = [d for d in ds if d.bb in reach]
-        rep.ob("C06.a", "%s lowered only when booked > delegated" % fld, bool(pass_edges) and not bad,
-               "assignment of %s reachable without observing booked_sum > delegated_sum (strict)" % fld if bad or not pass_edges
-               else "assignment behind delegated_sum < booked_sum", where(body, ds[0].bb), key="C06.a | %s" % fld)
-    # ---- C06.g no success exit around the comparison
-    # (two shortcuts are part of the design and carry their own observation: nothing is delegated at all, or nothing is booked at all)
-    cmp_blocks = {u for (u, _) in pass_edges}
-    allowed = set()
-    for blk in body.blocks:
-        if blk.term.kind == "switch" and blk.idx in be.cfg.live:
-            for succ, fl in sem.edge_facts(be, blk.idx).items():
-                for f in fl:
-                    if f[0] == "truth" and f[2] is True and f[1].op == "call":
-                        nm, a0 = f[1].info, world.ident(f[1].args[0], expand_ws=False) if f[1].args else None
-                        if nm.endswith("::is_empty") and a0 is not None and find(world.norm(a0, 0, False), lambda y: y.op == "call" and y.info.endswith("query_all_delegations")):
-                            allowed.add((blk.idx, succ))
-                        if nm.endswith("::is_zero") and a0 is not None and is_booked_sum(a0):
-                            allowed.add((blk.idx, succ))
-    okret = [b for (b, idx, k, x) in sem.ret_sites(be) if k in ("ok", "call", "libcall", "unknown") and b in be.cfg.live]
-    r0 = be.cfg.reach([0], removed=allowed, stop=cmp_blocks)
-    short = [b for b in okret if b in r0 and b not in cmp_blocks]
-    rep.ob("C06.g", "no success exit of the recompute function bypasses the booked-vs-delegated comparison", bool(cmp_blocks) and bool(okret) and not short,
-           "the recompute function can return successfully (block %s) without comparing the booked total with the delegations, other than for an empty delegation "
-           "list or an empty book: a slash in that state goes unrecognised" % (short,) if short else "every success exit passes the comparison (or has nothing delegated / booked)", where(body))
+    cmp_sites = []
+
+    def cmp_fact(f, resolve):
+        return f[0] == "cmp" and f[1] == "Lt" and is_booked_sum(resolve(f[3]))
+    for v in rvs:
+        for blk in v.body.blocks:
+            if blk.term.kind == "switch" and blk.idx in v.blocks:
+                for succ, fl in sem.edge_facts(v.be, blk.idx).items():
+                    for f in fl:
+                        if cmp_fact(f, v.resolve):
+                            cmp_sites.append((v, blk.idx, succ))
+                            delegated = world.ident(v.resolve(f[2]), expand_ws=False)
+    if not cmp_sites:
+        rep.ob("C06.a", "comparison", False, "anchor-lost: no comparison delegated_sum < booked_sum (booked = stored bSei pool + stored stSei pool) in %s or its callees" % body.path, where(body))
+        return
+    # the State handed back: its pool fields are the stored values or the recomputed ones
+    oks = world._ok_alts(world.ret_expr(body), "ok", 0, True)
+    alts = {f: [] for f in POOLS}
+    for o in oks:
+        for f in POOLS:
+            fv = sem.field_of(o, f)
+            for a in (fv.args if fv.op == "phi" else (fv,)):
+                if a not in alts[f]:
+                    alts[f].append(a)
+    new_val = {}
+    for f in POOLS:
+        changed = [a for a in alts[f] if lab(a) != stored(STATE, f)]
+        bad = []
+        for a in changed:
+            site = a.site
+            vis = [v for v in rvs if site is not None and v.body.path == site[0]]
+            if not vis:
+                bad.append("cannot locate where %s is computed" % show(a, 3))
+                continue
+            g, why = site_guarded(sem, vis[0], site[1], cmp_fact)
+            if not g:
+                bad.append("%s computed at line %d of %s without observing booked_sum > delegated_sum (%s)" % (f, vis[0].body.blocks[site[1]].term.line, vis[0].body.path, why))
+        if len(changed) == 1:
+            new_val[f] = changed[0]
+        rep.ob("C06.a", "%s lowered only when booked > delegated" % f, bool(changed) and not bad,
+               "; ".join(bad) if bad else ("anchor-lost: %s is never recomputed" % f if not changed else "recomputed value behind delegated_sum < booked_sum"),
+               where(body), key="C06.a | %s" % f)
+    # ---- C06.g no success exit around the comparison (two designed shortcuts: nothing delegated at all, nothing booked at all)
+    def shortcut(f, resolve):
+        if f[0] == "truth" and f[2] is True and f[1].op == "call" and f[1].args:
+            nm, a0 = f[1].info, world.ident(resolve(f[1].args[0]), expand_ws=False)
+            if nm.endswith("::is_empty") and find(world.norm(a0, 0, False), lambda y: y.op == "call" and y.info.endswith("query_all_delegations")):
+                return True
+            if nm.endswith("::is_zero") and is_booked_sum(a0):
+                return True
+        return False
+    cv, cbb, _ = cmp_sites[0]
+    okg, dg = always_passes(sem, cv, cbb, shortcut, root)
+    rep.ob("C06.g", "no success exit of the recompute function bypasses the booked-vs-delegated comparison", okg,
+           dg + (": a slash in that state goes unrecognised" if not okg else ""), where(body))
     # ---- C06.b shapes
     dn = world.norm(delegated, 0, False) if delegated is not None else None
-    bd = by_field["total_bond_bsei_amount"][0]
-    sd = by_field["total_bond_stsei_amount"][0]
-    bv = world.norm(be.def_value(bd), 0, False)
-    sv = world.norm(be.def_value(sd), 0, False)
+    bv = world.norm(new_val.get("total_bond_bsei_amount"), 0, False) if new_val.get("total_bond_bsei_amount") is not None else None
+    sv = world.norm(new_val.get("total_bond_stsei_amount"), 0, False) if new_val.get("total_bond_stsei_amount") is not None else None
     okb = False
-    det = show(bv, 5)
-    if bv.op == "bin" and bv.info == "Mul":
+    det = show(bv, 5) if bv is not None else "no recomputed bSei pool"
+    if bv is not None and bv.op == "bin" and bv.info == "Mul":
         for x, y in ((bv.args[0], bv.args[1]), (bv.args[1], bv.args[0])):
             if x == dn and y.op == "call" and y.info.endswith("Decimal::from_ratio"):
                 okb = lab(y.args[0]) == stored(STATE, "total_bond_bsei_amount") and is_booked_sum(y.args[1])
-    rep.ob("C06.b", "bSei pool := delegated x old bSei / booked", okb, det, where(body, bd.bb))
-    oks = arith_args(sv, "Sub") is not None and arith_args(sv, "Sub")[0] == dn and arith_args(sv, "Sub")[1] == bv
-    rep.ob("C06.b", "stSei pool := delegated - new bSei pool", oks, show(sv, 5), where(body, sd.bb))
-    rep.ob("C06.b", "comparison uses booked = bSei pool + stSei pool as loaded", bool(pass_edges), "%d guarding edge(s)" % len(pass_edges), where(body))
-    # ---- C06.d accumulation
+    rep.ob("C06.b", "bSei pool := delegated x old bSei / booked", okb, det, where(body))
+    oks2 = sv is not None and arith_args(sv, "Sub") is not None and arith_args(sv, "Sub")[0] == dn and arith_args(sv, "Sub")[1] == bv
+    rep.ob("C06.b", "stSei pool := delegated - new bSei pool", bool(oks2), show(sv, 5) if sv is not None else "no recomputed stSei pool", where(body))
+    rep.ob("C06.b", "comparison uses booked = bSei pool + stSei pool as loaded", bool(cmp_sites), "%d guarding edge(s)" % len(cmp_sites), where(body))
+    # ---- C06.d the delegated sum: an accumulation over the hub's own delegations of the staking denom only
     okd = False
     det = "anchor-lost: delegated sum is not an accumulation"
     src_ok = False
+
+    def denom_fact(f, resolve):
+        if f[0] == "cmp" and f[1] == "Eq":
+            ls = [lab(resolve(f[2])), lab(resolve(f[3]))]
+            xs = [world.ident(resolve(f[2]), expand_ws=False), world.ident(resolve(f[3]), expand_ws=False)]
+            return stored(PARAMS, "underlying_coin_denom") in ls and any(x.op == "field" and x.info[0] == "denom" for x in xs)
+        return False
     if delegated is not None:
-        adds = find(world.ident(delegated, expand_ws=False), lambda y: y.op == "bin" and y.info == "Add" and y.site and y.site[0] == body.path)
-        for a in adds:
-            amt = [z for z in a.args if z.op != "rec" and not (z.op == "call" and z.info.endswith("::zero"))]
-            pe = set()
-            for blk in body.blocks:
-                if blk.term.kind == "switch" and blk.idx in be.cfg.live:
-                    for succ, fl in sem.edge_facts(be, blk.idx).items():
-                        for f in fl:
-                            if f[0] == "cmp" and f[1] == "Eq":
-                                ls = [lab(f[2]), lab(f[3])]
-                                xs = [world.ident(f[2], expand_ws=False), world.ident(f[3], expand_ws=False)]
-                                if stored(PARAMS, "underlying_coin_denom") in ls and any(x.op == "field" and x.info[0] == "denom" for x in xs):
-                                    pe.add((blk.idx, succ))
-            r = be.cfg.reach([0], removed=pe)
-            okd = bool(pe) and a.site[1] not in r
-            det = "accumulation behind delegation.amount.denom == Parameters.underlying_coin_denom" if okd else "a delegation of any denom is added to the delegated sum"
-            srcs = find(world.norm(a, 0, False), lambda y: y.op == "call" and y.info.endswith("query_all_delegations"))
-            src_ok = any(sem.label(s.args[1]) == ("self",) for s in srcs)
+        dsum = world.ident(delegated, expand_ws=False)
+        if dsum.op == "call" and last(dsum.info) == "sum" and dsum.args:
+            # iterator form: delegations.iter().filter(|d| d.amount.denom == denom).map(|d| d.amount.amount).sum()
+            src = dsum.args[0]
+            drs = droppers(world, src)
+            filt = [dr for dr in drs if dr[0] == "filter" and len(dr[1].args) > 1 and dr[1].args[1].op == "closure"]
+            okf = False
+            for (nm, c) in filt:
+                pb = prog.bodies.get(c.args[1].info)
+                clo = c.args[1]
+                if pb is None:
+                    continue
+                it = mk_item(world, c.args[0])
+
+                def res(x, pb=pb, clo=clo, it=it):
+                    return root.resolve(world.subst_params(x, pb, [None, it], upvars=list(clo.args)))
+                okf = okf or any(denom_fact(f, res) for f in true_facts(sem, pb))
+            others = [dr for dr in drs if dr not in filt]
+            cr = collection_repr(world, src)
+            crn = world.norm(cr, 0, False) if cr is not None else None
+            amt_ok = crn is not None and crn.op == "field" and crn.info[0] == "amount" and crn.args[0].op == "field" and crn.args[0].info[0] == "amount"
+            okd = okf and not others and amt_ok
+            det = "sum over a filter on delegation.amount.denom == Parameters.underlying_coin_denom: %s; summed value is delegation.amount.amount: %s; other droppers %s" % (
+                okf, amt_ok, [d0[0] for d0 in others])
+            srcs = find(world.norm(src, 0, False), lambda y: y.op == "call" and y.info.endswith("query_all_delegations"))
+            src_ok = any(sem.label(s0.args[1]) == ("self",) for s0 in srcs)
+        else:
+            adds = find(dsum, lambda y: y.op == "bin" and y.info == "Add" and y.site and any(z.op == "rec" for z in y.args))
+            for a in adds:
+                vis = [v for v in rvs if v.body.path == a.site[0]]
+                if not vis:
+                    continue
+                g, why = site_guarded(sem, vis[0], a.site[1], denom_fact)
+                okd = g
+                det = "accumulation behind delegation.amount.denom == Parameters.underlying_coin_denom" if okd else "a delegation of any denom is added to the delegated sum"
+                srcs = find(world.norm(a, 0, False), lambda y: y.op == "call" and y.info.endswith("query_all_delegations"))
+                src_ok = any(sem.label(s0.args[1]) == ("self",) for s0 in srcs)
     rep.ob("C06.d", "delegated sum filters by the staking denom", okd, det, where(body))
     rep.ob("C06.d", "delegated sum is over the hub's own delegations", src_ok, "query_all_delegations(self): %s" % src_ok, where(body))
     # ---- C06.f persistence
